@@ -129,8 +129,10 @@ class _STIXBase(collections.abc.Mapping):
             stix2.properties.ReferenceProperty, stix2.properties.SelectorProperty,
         )
 
-        custom_props = kwargs.pop('custom_properties', {})
-        if custom_props and not isinstance(custom_props, dict):
+        custom_props = kwargs.pop('custom_properties', None)
+        if custom_props is None:
+            custom_props = {}
+        if not isinstance(custom_props, dict):
             raise ValueError("'custom_properties' must be a dictionary")
 
         # Detect any keyword arguments representing customization.
